@@ -6,6 +6,7 @@ package desc
 import (
 	"encoding/json"
 	"fmt"
+	"go/token"
 	"math"
 	"reflect"
 	"strconv"
@@ -171,7 +172,7 @@ func typeLocked(t T) reflect.Type {
 		fs := make([]reflect.StructField, len(t.Fields))
 		for i, f := range t.Fields {
 			sf := reflect.StructField{Name: f.Name, Type: typeLocked(f.T), Tag: reflect.StructTag(f.TagString())}
-			if f.Name != "" && !(f.Name[0] >= 'A' && f.Name[0] <= 'Z') {
+			if !Exported(f.Name) {
 				sf.PkgPath = harnessPkg
 			}
 			fs[i] = sf
@@ -286,6 +287,9 @@ func fill(ctx *buildCtx, dst reflect.Value, v V) {
 		panic(fmt.Sprintf("desc: cannot build %v", ty))
 	}
 }
+
+// Exported reports whether a field name is exported in Go's sense (first rune is an upper-case letter).
+func Exported(name string) bool { return token.IsExported(name) }
 
 // Named is shorthand for a named library type descriptor.
 func Named(name string) T { return T{K: "named", Name: name} }
